@@ -225,6 +225,12 @@ fn run(kind: &str, input: &Value) -> Value {
             }
             if kind == "rrow" { Value::Array(rows) } else { json!(h & ((1u64 << 61) - 1)) }
         }
+        // in = [budget, script]: plain retry_with_backoff, budgets up to u32::MAX
+        "rbig" => {
+            let budget = input[0].as_u64().unwrap() as u32;
+            let script = ints(&input[1]);
+            json!(run_wrapper(0, budget, &script, false))
+        }
         // in = [api, n, chunk_size, fail, dup, parallel, errsym]
         // items 0..n; chunk number j fails iff j == fail (error errsym, message e<j>), otherwise
         // returns x*100+j for every x (twice if dup).  out = [chunks handed over, result]
@@ -321,7 +327,7 @@ fn run(kind: &str, input: &Value) -> Value {
             }
         }
         // in = [initial_ms, cap_ms, mult, budget, nfail, slack_us]: nfail Network errors, then Ok.
-        // out = [calls, class, origin+1, min elapsed microseconds over 5 trials]
+        // out = [calls, class, origin+1, min elapsed microseconds over 3..40 trials]
         "timing" => {
             let cfg = RetryConfig {
                 initial_delay_ms: input[0].as_u64().unwrap(),
@@ -330,9 +336,11 @@ fn run(kind: &str, input: &Value) -> Value {
                 max_attempts: input[3].as_u64().unwrap() as u32,
             };
             let nfail = input[4].as_u64().unwrap() as usize;
-            let mut best = u128::MAX;
+            // repeat until the two fastest trials agree to 0.3 ms (scheduler noise only ever
+            // adds time), at most 40 times
+            let mut times: Vec<u128> = Vec::new();
             let mut first: Option<Vec<i64>> = None;
-            for _ in 0..5 {
+            for _ in 0..40 {
                 let mut calls = 0usize;
                 let t0 = Instant::now();
                 let r = retry_with_backoff(&cfg, || {
@@ -340,8 +348,8 @@ fn run(kind: &str, input: &Value) -> Value {
                     calls += 1;
                     op_result(if i < nfail { 1 } else { 0 }, i)
                 });
-                let el = t0.elapsed().as_micros();
-                best = best.min(el);
+                times.push(t0.elapsed().as_micros());
+                times.sort_unstable();
                 let code = match r {
                     Ok(v) => vec![calls as i64, 0, v + 1],
                     Err(e) => vec![calls as i64, code_of(&e.kind), origin_of(&e) + 1],
@@ -350,7 +358,11 @@ fn run(kind: &str, input: &Value) -> Value {
                     None => first = Some(code),
                     Some(f) => assert_eq!(f, &code, "retry is not deterministic"),
                 }
+                if times.len() >= 3 && times[1] - times[0] <= 300 {
+                    break;
+                }
             }
+            let best = times[0];
             let mut code = first.unwrap();
             code.push(best as i64);
             json!(code)
@@ -487,6 +499,15 @@ fn generate(seed: u64, tier: Tier, em: &mut Emitter) {
                 let mut s: Vec<i64> = (0..nf).map(|i| 1 + (i as i64 % 4)).collect();
                 s.push(0);
                 em.case("rrow", json!([w, b, s, 0, false]), true, &["boundary", "retry"]);
+            }
+        }
+    }
+    for &b in &[65_535u64, 65_536, 2_147_483_648, 4_294_967_294, 4_294_967_295] {
+        for nf in [0usize, 1, 6, 40] {
+            for last in [0i64, 9] {
+                let mut s: Vec<i64> = (0..nf).map(|i| 1 + (i as i64 % 4)).collect();
+                s.push(last);
+                em.case("rbig", json!([b, s]), nf >= 1, &["boundary", "retry", "huge-budget"]);
             }
         }
     }
